@@ -7,9 +7,9 @@ import EgVerif.Spec.Topic
 * `eligible`: a client must get a message on topic `T` at QoS `q` iff it is connected and holds a live
   subscription whose filter matches `T` with QoS at least `q` (stated on the abstract subscription set of
   `Spec/Topic.lean`, nothing about the trie or the visiting order).
-* `unacked`: the QoS1 messages published to a client and not yet acknowledged, oldest first, with the packet
-  ids `0, 1, 2 …` (mod 65536) in the order of `publish` calls. A resend tick must send the head of this list
-  and nothing else.
+* `unacked` / `unackedObs`: the QoS1 messages written to a client and not yet acknowledged, oldest first, each
+  with the packet id it was WRITTEN with (observation-based: no id-allocation scheme is assumed). A resend tick
+  must send the head of this list and nothing else.
 -/
 namespace EgVerif.Delivery
 open EgVerif.Topic
@@ -21,18 +21,33 @@ end EgVerif.Delivery
 
 namespace EgVerif.SessionQueue
 
-/-- abstract effect of one event on (number of ids consumed, unacknowledged QoS1 messages oldest first) -/
-def unackedStep (st : Nat × List (Id × Msg)) : Ev → Nat × List (Id × Msg)
-  | .publish online _ m =>
-    if online then (st.1 + 1, if m.qos = 1 then st.2 ++ [(st.1 % idMod, m)] else st.2) else st
-  | .puback i => (st.1, st.2.filter (fun e => decide (e.1 ≠ i)))
-  | .tick _ => st
+/-- **Observation-based bookkeeping of the unacknowledged QoS1 messages** (oldest first). It looks only at the
+events and at what was WRITTEN: an online QoS1 `publish` whose packet went out with id `p.id` adds `(p.id, m)`;
+a PUBACK with id `i` removes the entries with that id; a tick changes nothing. No packet-id allocation scheme
+is built in — this is the same function the judge (`Driver/C15.lean`) folds over the implementation's
+observations, and the theorems of `Props/C15.lean` speak about it on the model's own outputs (`unacked`). -/
+def obsStep (u : List (Id × Msg)) : Ev → List Packet → List (Id × Msg)
+  | .publish _ _ m, p :: _ => if m.qos = 1 then u ++ [(p.id, m)] else u
+  | .publish _ _ _, [] => u
+  | .puback i, _ => u.filter (fun e => decide (e.1 ≠ i))
+  | .tick _, _ => u
 
-def unackedFrom (st : Nat × List (Id × Msg)) : List Ev → Nat × List (Id × Msg)
-  | [] => st
-  | e :: r => unackedFrom (unackedStep st e) r
+def unackedObs (u : List (Id × Msg)) : List (Ev × List Packet) → List (Id × Msg)
+  | [] => u
+  | (e, out) :: r => unackedObs (obsStep u e out) r
 
-def unacked (tr : List Ev) : Nat × List (Id × Msg) := unackedFrom (0, []) tr
+/-- the model's own observation trace -/
+def trace (s : Sess) : List Ev → List (Ev × List Packet)
+  | [] => []
+  | e :: r => (e, (step s e).2) :: trace (step s e).1 r
+
+/-- unacknowledged messages along a model run started in `s` with bookkeeping `u` -/
+def uRun (s : Sess) (u : List (Id × Msg)) : List Ev → List (Id × Msg)
+  | [] => u
+  | e :: r => uRun (step s e).1 (obsStep u e (step s e).2) r
+
+/-- the unacknowledged QoS1 messages after a trace from a fresh session -/
+def unacked (tr : List Ev) : List (Id × Msg) := uRun Sess.init [] tr
 
 /-- what a resend tick must write: the oldest unacknowledged message, if the client is online -/
 def specTick (online : Bool) (u : List (Id × Msg)) : List Packet :=
